@@ -658,3 +658,143 @@ theorem measSubstCode_eq (c : MCalDef) (m : Measurement) (i : Instruction) (hp :
       rw [hf] at hc
       simpa [formalCoveredB, otherRefs_mapQubits _ _ hp] using hc
 end QV.C17
+
+namespace QV.C17
+open QV QV.Ast
+
+/-! ### the relation is deterministic -/
+
+section
+variable {κ : Type} (E : Env κ) {S : Subst} {cals : Cals}
+
+theorem GateWinner.unique {cs : List CalDef} {g : Gate} {c c' : CalDef}
+    (h : GateWinner E cs g c) (h' : GateWinner E cs g c') : c = c' := by
+  obtain ⟨i, hi, hc⟩ := h
+  obtain ⟨j, hj, hc'⟩ := h'
+  have := C16.gateWinner_unique _ _ i j hi hj
+  subst this
+  rw [hc] at hc'
+  exact Option.some.inj hc'
+
+theorem MeasWinner.unique {cs : List MCalDef} {m : Measurement} {c c' : MCalDef}
+    (h : MeasWinner cs m c) (h' : MeasWinner cs m c') : c = c' := by
+  obtain ⟨i, hi, hc⟩ := h
+  obtain ⟨j, hj, hc'⟩ := h'
+  have := C16.measWinner_unique _ _ i j hi hj
+  subst this
+  rw [hc] at hc'
+  exact Option.some.inj hc'
+
+/-- the big-step semantics determines the result -/
+theorem Expands.deterministic {is o1 : List Instruction} (h1 : Expands E S cals is o1) :
+    ∀ o2, Expands E S cals is o2 → o1 = o2 := by
+  induction h1 with
+  | nil => intro o2 h2; cases h2; rfl
+  | keep hn _ ih =>
+    intro o2 h2
+    cases h2 with
+    | keep _ h2' => rw [ih _ h2']
+    | gate hw _ _ => exact absurd hn (gateWinner_not_noMatch E hw)
+    | meas hw _ _ => exact absurd hn (measWinner_not_noMatch E hw)
+  | gate hw _ _ ihb ih =>
+    intro o2 h2
+    cases h2 with
+    | keep hn _ => exact absurd hn (gateWinner_not_noMatch E hw)
+    | gate hw' hb' hr' =>
+      have := GateWinner.unique E hw hw'
+      subst this
+      rw [ihb _ hb', ih _ hr']
+  | meas hw _ _ ihb ih =>
+    intro o2 h2
+    cases h2 with
+    | keep hn _ => exact absurd hn (measWinner_not_noMatch E hw)
+    | meas hw' hb' hr' =>
+      have := MeasWinner.unique hw hw'
+      subst this
+      rw [ihb _ hb', ih _ hr']
+
+end
+end QV.C17
+
+namespace QV.C17
+open QV QV.Ast
+
+/-! ### the projection onto C16's alphabet is faithful -/
+
+theorem idxOf_eq_iff {α : Type} [DecidableEq α] (l : List α) (a b : α) (ha : a ∈ l) :
+    l.idxOf a = l.idxOf b ↔ a = b := by
+  constructor
+  · intro h
+    have h1 : l.idxOf a < l.length := List.idxOf_lt_length_iff.mpr ha
+    have h2 : l[l.idxOf a]'h1 = a := List.getElem_idxOf h1
+    have h3 : l.idxOf b < l.length := h ▸ h1
+    have h4 : l[l.idxOf b]'h3 = b := List.getElem_idxOf h3
+    rw [← h2, ← h4]
+    congr 1
+  · intro h; rw [h]
+
+section
+variable {κ : Type} (E : Env κ)
+
+theorem toMod16_injective : Function.Injective toMod16 := by
+  intro a b h; cases a <;> cases b <;> simp_all [toMod16]
+
+theorem map_toMod16_inj : ∀ (a b : List GateModifier), a.map toMod16 = b.map toMod16 → a = b
+  | [], [], _ => rfl
+  | [], _ :: _, h => by simp at h
+  | _ :: _, [], h => by simp at h
+  | x :: xs, y :: ys, h => by
+    simp only [List.map_cons, List.cons.injEq] at h
+    rw [toMod16_injective h.1, map_toMod16_inj xs ys h.2]
+
+theorem qubitOk_iff (cq gq : Qubit) : C16.QubitOk (toQubit16 cq) (toQubit16 gq) ↔ QubitOkAst cq gq := by
+  rcases cq with a | a | a <;> rcases gq with b | b | b <;> simp [C16.QubitOk, QubitOkAst, toQubit16]
+
+theorem paramOk_iff (univ : List PExpr) (cp gp : PExpr) (hc : E.simp cp ∈ univ) :
+    C16.ParamOk (toParam16 E univ cp) (toParam16 E univ gp) ↔
+      ((∃ v, E.simp cp = .var v) ∨ E.simp cp = E.simp gp) := by
+  unfold C16.ParamOk toParam16
+  cases hcs : E.simp cp <;> cases hgs : E.simp gp <;>
+    simp [classOf, idxOf_eq_iff univ _ _ (hcs ▸ hc)]
+
+theorem simp_mem_universe (cs : List CalDef) (g : Gate) (c : CalDef) (hc : c ∈ cs) (cp : PExpr)
+    (hp : cp ∈ c.identifier.parameters) : E.simp cp ∈ paramUniverse E cs g := by
+  simp only [paramUniverse, List.mem_append, List.mem_map, List.mem_flatMap]
+  exact Or.inr ⟨cp, Or.inl ⟨c, hc, hp⟩, rfl⟩
+
+/-- C16's matching relation on the projection is the matching relation on the real identifiers -/
+theorem gateMatches_iff (cs : List CalDef) (g : Gate) (c : CalDef) (hc : c ∈ cs) (idx : Nat) :
+    C16.GateMatches (toCal16 E (paramUniverse E cs g) c idx) (toGate16 E (paramUniverse E cs g) g) ↔
+      GateMatchesAst E c g := by
+  unfold C16.GateMatches GateMatchesAst
+  simp only [toCal16, toGate16, List.length_map, List.getElem?_map]
+  constructor
+  · rintro ⟨h1, h2, h3, h4, h5, h6⟩
+    refine ⟨h1, map_toMod16_inj _ _ h2, h3, h4, ?_, ?_⟩
+    · intro i cq gq hcq hgq
+      exact (qubitOk_iff cq gq).mp (h5 i _ _ (by simp [hcq]) (by simp [hgq]))
+    · intro i cp gp hcp hgp
+      have hmem := simp_mem_universe E cs g c hc cp (List.mem_of_getElem? hcp)
+      exact (paramOk_iff E _ cp gp hmem).mp (h6 i _ _ (by simp [hcp]) (by simp [hgp]))
+  · rintro ⟨h1, h2, h3, h4, h5, h6⟩
+    refine ⟨h1, by rw [h2], h3, h4, ?_, ?_⟩
+    · intro i cq16 gq16 hcq hgq
+      obtain ⟨cq, hcq', rfl⟩ := Option.map_eq_some_iff.mp hcq
+      obtain ⟨gq, hgq', rfl⟩ := Option.map_eq_some_iff.mp hgq
+      exact (qubitOk_iff cq gq).mpr (h5 i cq gq hcq' hgq')
+    · intro i cp16 gp16 hcp hgp
+      obtain ⟨cp, hcp', rfl⟩ := Option.map_eq_some_iff.mp hcp
+      obtain ⟨gp, hgp', rfl⟩ := Option.map_eq_some_iff.mp hgp
+      have hmem := simp_mem_universe E cs g c hc cp (List.mem_of_getElem? hcp')
+      exact (paramOk_iff E _ cp gp hmem).mpr (h6 i cp gp hcp' hgp')
+
+theorem measMatches_iff (c : MCalDef) (m : Measurement) (idx : Nat) :
+    C16.MeasMatches (toMCal16 c idx) (toMeas16 m) ↔ MeasMatchesAst c m := by
+  unfold C16.MeasMatches MeasMatchesAst
+  simp only [toMCal16, toMeas16, Option.isSome_map]
+  rcases hq : c.identifier.qubit with a | a | a <;> rcases hm : m.qubit with b | b | b <;>
+    simp [toQubit16]
+
+end
+
+end QV.C17
